@@ -11,7 +11,7 @@ from mc import battery, env, fsparse, seqx, world
 MOD = 'checks.c04_history'
 
 KINDS_F = ['new', 'new2', 'mod', 'mod2', 'big', 'meta', 'empty', 'del', 'undo',
-           'stale', 'restore', 'ab1', 'ab2', 'stall', 'back', 'reopen', 'reopenx']
+           'stale', 'stalegone', 'restore', 'ab1', 'ab2', 'stall', 'back', 'reopen', 'reopenx']
 KINDS_M = ['new', 'new2', 'mod', 'mod2', 'big', 'meta', 'empty', 'stale', 'ab1',
            'stall', 'back']
 
